@@ -186,6 +186,27 @@ for _k, _c in EXTRA6.items():
     c0, n0, t0 = CLAIMS[_k]
     CLAIMS[_k] = (c0 + _c, n0, t0)
 
+EXTRA7 = {
+ "C01": "; a possibly-nil (node-configured) tracer reaches the EVM in consensus scope only where its state reads cost no gas; the app's BeginBlocker refunds the block context's gas meter",
+ "C02": "; the StateDB answers 'no such account' only after asking the keeper in that very call",
+ "C07": "; the messages' gas limits are summed under an overflow test",
+ "C08": "; the schedule readers advance their clock by every period and Liquidate's guards hold (C09 R11, C11 R1)",
+ "C09": "; the schedule readers' start limit is strict (an event at the start time has happened); every accepted period list is shown to fit an int64 end; the direct SDK Delegate bonds what the new grant's own schedule has vested (C08 R3)",
+ "C10": "; committing EVM calls appear only in the tabled conversion sites; no amount-handling function takes the mutable number out of an sdk.Int",
+ "C11": "; the proportional split is integer arithmetic (multiplication first); a merge stores the later end (C09 R6)",
+ "C12": "; a writer of the recorded total outside the keeper acts only where the new total equals the sum of shares; Fund/TransferOwnership have tabled callers only",
+ "C13": "; no fallible conversion with a discarded error takes a configured amount; the cap comparison is recognised in Dec or integer form",
+ "C15": "; coins leave a staking pool by name only with the amount Unbond reported; a fee pool read is written back with no state-writing call in between",
+ "C16": "; answer-struct fields are filled from the native field of the same name",
+ "C17": "; the gas target is non-zero wherever it divides",
+ "C18": "; the three GetTo getters decide 'creation' by To == \"\" alone; the mempool priority derives from EffectiveGasPrice",
+ "C19": "; contract-controlled strings are made valid UTF-8 before they are stored in exported state",
+ "C20": "; process-local fields re-derived in BeginBlock are also set when the app is constructed",
+}
+for _k, _c in EXTRA7.items():
+    c0, n0, t0 = CLAIMS[_k]
+    CLAIMS[_k] = (c0 + _c, n0, t0)
+
 BUILT = json.load(open('/verif/tools/built.json'))
 
 m = {"version": 1,
